@@ -18,7 +18,7 @@ pub fn spec() -> PropSpec {
     PropSpec {
         id: "C16",
         level: "exploration",
-        rule: "sets: six quantities (solutions<=100, predicate-data slots<=100, words per slot<=10000, total mutations<=1000, key words<=1000, value words<=10000) each from a size menu (quick: full product over {1,L,L+1} plus every single-quantity sweep over {0,L-1} against all {1,L} backgrounds; thorough: full product over {0,1,L-1,L,L+1}) x mutations spread over {1,2,100} solutions x duplicate mode {none, same key twice in one solution, same key in two solutions of one contract (two predicates), same key in two solutions of different contracts, same key in two solutions with the same predicate address} x carrier position {first,last}; one carrier element holds the big size, everything else is minimal. contracts: predicates {0,1,99,100,101} x carrier nodes {0,1,999,1000,1001} x edges {same menu} x carrier position x node shape {leaves, chained} x signature {valid, recovery id flipped, id 4, id 255, zeroed, all 0xFF, valid for another contract, valid by another key}. computed sets: 1..2 solutions (same / different contract) each with declared mutations in {[],[9->4],[8->5],both} and computed mutations (data-output leaves) in {none,[9->3],[8->6],both in one leaf,both over two leaves, [9->3,9->7] in one leaf, over two leaves}, through check_and_compute_solution_set_two_pass and the one-pass check_and_compute_solution_set. Oracle: accept <=> every quantity within its documented limit (restated literally), signed contract additionally <=> essential_sign::contract::recover succeeds; a returned computed set passes check_set and has no solution with two mutations of one key. non-trivial = some quantity at L or L+1 or a duplicate key (sets/contracts), or the computing check returned Ok with at least one computed mutation; distinct by case tuple",
+        rule: "sets: six quantities (solutions<=100, predicate-data slots<=100, words per slot<=10000, total mutations<=1000, key words<=1000, value words<=10000) each from a size menu (quick: full product over {1,L,L+1} plus every single-quantity sweep over {0,L-1} against all {1,L} backgrounds; thorough: full product over {0,1,L-1,L,L+1}) x mutations spread over {1,2,100} solutions x duplicate mode {none, same key twice in one solution, same key in two solutions of one contract (two predicates), same key in two solutions of different contracts, same key in two solutions with the same predicate address} x carrier position {first,last}; one carrier element holds the big size, everything else is minimal. contracts: predicates {0,1,99,100,101} x carrier nodes {0,1,999,1000,1001} x edges {same menu} (plus counts 65536, 66536, 65536+999/1000 that are small again modulo 2^16) x carrier position x node shape {leaves, chained} x signature {valid, recovery id flipped, id 4, id 255, zeroed, all 0xFF, valid for another contract, valid by another key}. computed sets: 1..2 solutions (same / different contract) each with declared mutations in {[],[9->4],[8->5],both} and computed mutations (data-output leaves) in {none,[9->3],[8->6],both in one leaf,both over two leaves, [9->3,9->7] in one leaf, over two leaves, [9->3] in each of two leaves}, through check_and_compute_solution_set_two_pass and the one-pass check_and_compute_solution_set. Oracle: accept <=> every quantity within its documented limit (restated literally), signed contract additionally <=> essential_sign::contract::recover succeeds; a returned computed set passes check_set and has no solution with two mutations of one key. non-trivial = some quantity at L or L+1 or a duplicate key (sets/contracts), or the computing check returned Ok with at least one computed mutation; distinct by case tuple",
         assumptions: &[
             "sets where two different solutions of one contract mutate the same key satisfy every clause of the statement but are owned by property C04: either verdict is accepted for them (masked)",
             "signing keys come from a fixed pool of two",
@@ -689,6 +689,16 @@ fn check_con_case(c: &ConCase, rep: &mut Report) {
 
 fn con_cases(mut f: impl FnMut(u64, ConCase)) {
     let mut i = 0u64;
+    // counts far above the limit that are small again modulo 2^16 (the limits are u16 constants)
+    for (nodes, edges) in [(65536usize, 1usize), (1, 65536), (66536, 0), (0, 66536), (65536 + 999, 65536 + 1000)] {
+        for pos in 0..2u8 {
+            let c = ConCase { q: [1, nodes, edges], pos, shape: 0, sig: 0 };
+            if c.feasible() {
+                i += 1;
+                f(i, c);
+            }
+        }
+    }
     for np in sizes(100) {
         for nodes in sizes(1000) {
             for edges in sizes(1000) {
@@ -947,6 +957,9 @@ fn comp_cases(mut f: impl FnMut(u64, CompCase)) {
         vec![vec![(k9(), vec![3])], vec![(k8(), vec![6])]],
         vec![vec![(k9(), vec![3]), (k9(), vec![7])]],
         vec![vec![(k9(), vec![3])], vec![(k9(), vec![7])]],
+        // two data-output leaves computing the same slot with the SAME value
+        vec![vec![(k9(), vec![3])], vec![(k9(), vec![3])]],
+        vec![vec![(k9(), vec![3]), (k8(), vec![6])], vec![(k9(), vec![3])]],
     ];
     let mut singles = vec![];
     for d in &declared {
